@@ -243,6 +243,8 @@ func endpoints() []*Endpoint {
 		func(w Win) map[string]any {
 			return se(w, map[string]any{"profile_typeID": typeID, "label_selector": sel, "group_by": []string{"cls"}, "step": 1})
 		}, open, closed, false)
+	add(&Endpoint{Name: "prof_render_diff", Group: "prof_render_diff", Items: "profs", Signal: -1, Unit: 1e6, Must: open, Allowed: closed,
+		Run: get("/pyroscope/render-diff?leftQuery=" + q(typeID+sel) + "&rightQuery=" + q(typeID+sel) + "&leftFrom={Sms}&leftUntil={Ems}&rightFrom={Sms}&rightUntil={Ems}")})
 	pf("prof_analyze_query", "prof_analyze_query", "/querier.v1.QuerierService/AnalyzeQuery",
 		func(w Win) map[string]any { return se(w, map[string]any{"query": sel}) }, never, closed, false)
 	return out
